@@ -935,7 +935,7 @@ impl Scenario for C01 {
 pub struct C04Uni;
 
 /// Key of a "stuck at quiescence" verdict: which channel and entry point, the stream configuration, whether producers
-/// overlapped, whether the stuck event was the only one ever sent (`n1`: a lone event into an empty channel) and *how*
+/// overlapped, how many events were ever sent in the run (`n1`: a lone event into an empty channel, `n2`, `n3+`) and *how*
 /// the wake-up got lost: the accepting operation made no wake attempt at all / its attempts found no waker
 /// registered / it did deliver a wake-up and the event is stuck nevertheless.
 pub fn c04_key(scn: &str, p_kind: Kind, entry: &str, max_streams: usize, streams: usize, producers: usize, total_sends: usize, wakes_delivered: u32, wake_misses: u32) -> String {
@@ -946,7 +946,11 @@ pub fn c04_key(scn: &str, p_kind: Kind, entry: &str, max_streams: usize, streams
     } else {
         "woke_but_stuck"
     };
-    format!("{}/{}/{}/ms{}s{}/{}/{}/{}", scn, p_kind.name(), entry, max_streams, streams, if producers == 1 { "p1" } else { "p2+" }, if total_sends == 1 { "n1" } else { "n2+" }, how)
+    format!("{}/{}/{}/ms{}s{}/{}/{}/{}", scn, p_kind.name(), entry, max_streams, streams, if producers == 1 { "p1" } else { "p2+" }, match total_sends {
+        1 => "n1",
+        2 => "n2",
+        _ => "n3+",
+    }, how)
 }
 
 impl Scenario for C04Uni {
